@@ -1,51 +1,16 @@
-"""Registry: one entry per property (see tools/check for how entries are used)."""
+"""Registry: one entry per property, loaded from tools/propsd/<ID>.py (each defines PROP = dict(...)).
+See tools/README.md for the fields."""
+import glob, importlib.util, os
 
-def _has(recs, ev, n=1):
-    return sum(1 for r in recs if r.get("ev") == ev) >= n
-
+PROPS = {}
 NOT_APPLICABLE = {}
-
-def _evictions(recs):
-    """count Create events after which a previously live key disappeared"""
-    n, live = 0, set()
-    for r in recs:
-        if "live" in r:
-            now = set(r["live"])
-            if r.get("ev") == "Create" and (live - now):
-                n += 1
-            live = now
-    return n
-
-PROPS = {
-    "C20": dict(
-        specdir="p2p", engine="c20",
-        mc=[dict(module="AnnounceQueue", cfg="MC_AnnounceQueue.cfg")],
-        trace=dict(module="AnnounceQueueTrace", cfg="AnnounceQueueTrace.cfg"),
-        nontrivial=lambda recs: any(r.get("ev") == "Next" and r.get("res") != "none" for r in recs) and _has(recs, "Eject") and _has(recs, "Ready"),
-        rule="seeded random histories (Add/Next/Ready/Eject over 5 torrents, 20-60 calls + final drain) on the real QueueImpl; "
-             "distinct = distinct event sequences; non-trivial = some Next returned a torrent and the history contains Eject and Ready",
-        assumptions=["Add(h) is only issued for a torrent not currently queued (documented undefined otherwise)"],
-    ),
-    "C07": dict(
-        specdir="store", engine="c07",
-        mc=[dict(module="BlobStore", cfg="MC_BlobStore.cfg")],
-        trace=dict(module="BlobStoreTrace", cfg="BlobStoreTrace.cfg"),
-        nontrivial=lambda recs: _evictions(recs) >= 1 and _has(recs, "MarkComplete", 2),
-        rule="seeded random histories (40-80 calls over 4 keys, capacities {1,3,4,8}, all scopes, movable and non-movable "
-             "metadata, Clean, sharded/unsharded) on a real disk.Store in a temp dir; every call logged with reply class and "
-             "post-call eviction order / reserved bytes / live keys; non-trivial = at least one eviction by admission and two completions",
-        assumptions=["eviction order and reserved bytes are read through an export-only overlay shim (harness/overlay/lib/store/disk)"],
-    ),
-    "C08": dict(
-        specdir="store", engine="c08",
-        mc=[dict(module="BlobStore", cfg="MC_BlobStore.cfg", tiers=("thorough",)),
-            dict(module="MemHandles", cfg="MC_MemHandles.cfg")],
-        trace=dict(module="MemHandlesTrace", cfg="MemHandlesTrace.cfg"),
-        nontrivial=lambda recs: any(r.get("res") == "evicted" for r in recs) and _evictions(recs) >= 1,
-        rule="seeded random histories on a real memory.Store (40-80 store calls over 4 keys + interleaved Read/ReadAt/Write/"
-             "WriteAt/Seek/Size on up to 6 handles kept across evictions, deletions and re-creations); non-trivial = at least one "
-             "eviction by admission and at least one handle call answered 'evicted'",
-        assumptions=["zero-length reads and negative offsets are answered before the store is consulted (Reading in DESIGN C08)",
-                     "concurrent schedules are covered by the c08 concurrent driver only in the thorough tier"],
-    ),
-}
+_d = os.path.join(os.path.dirname(os.path.abspath(__file__)), "propsd")
+for _f in sorted(glob.glob(os.path.join(_d, "*.py"))):
+    _n = os.path.basename(_f)[:-3]
+    _spec = importlib.util.spec_from_file_location("propsd_" + _n, _f)
+    _m = importlib.util.module_from_spec(_spec)
+    _spec.loader.exec_module(_m)
+    if hasattr(_m, "PROP"):
+        PROPS[_n] = _m.PROP
+    if hasattr(_m, "NOT_APPLICABLE"):
+        NOT_APPLICABLE[_n] = _m.NOT_APPLICABLE
